@@ -18,7 +18,7 @@ OPTIONS = {
 }
 BOUNDS = {
     "quick": {"raw_bytes": "all byte strings of length <= 7 (fresh server) / <= 6 (fresh client) / <= 4 (other pre-states)", "window": "2 symbolic octets at every offset of 11 seed messages, delivered to the matching side and to the other side", "cuts": "whole delivery and every 2-chunk cut for raw strings of length <= 4; windows delivered whole and cut once in the middle of the window", "pre_states": "client/server x fresh/opened/search/binding", "histories": "every pair of application calls (accepted or refused) followed by a delivered message of every kind with a symbolic id 0..6"},
-    "thorough": {"raw_bytes": "all byte strings of length <= 10 (fresh server) / <= 9 (fresh client) / <= 7 (other pre-states)", "window": "3 symbolic octets at every offset", "cuts": "every 2-chunk cut for raw strings <= 5", "pre_states": "same"},
+    "thorough": {"raw_bytes": "all byte strings of length <= 9 (fresh server) / <= 8 (fresh client) / <= 6 (other pre-states)", "window": "3 symbolic octets at every offset", "cuts": "every 2-chunk cut for raw strings <= 5", "pre_states": "same"},
 }
 OUTSIDE = [
     "corruption wider than the window in long messages",
@@ -45,7 +45,7 @@ def units(tier):
                 nmax = (7 if side == "server" else 6) if pre == "fresh" else 4
                 cutmax = 3
             else:
-                nmax = (10 if side == "server" else 9) if pre == "fresh" else 7
+                nmax = (9 if side == "server" else 8) if pre == "fresh" else 6
                 cutmax = 5
             for n in range(0, nmax + 1):
                 parts = common.raw_parts(n)
